@@ -245,6 +245,7 @@ def offset_tables():
                 tabs[f"libpass.{name}"] = tuple(v)
     except Exception:  # noqa: BLE001
         pass
+    tabs["empty"] = ()
     for n in (1, 2, 3, 4, 5, 7, 16, 20):
         tabs[f"rev{n}"] = tuple(reversed(range(n)))
         tabs[f"rot{n}"] = tuple((i * 3 + 1) % n for i in range(n)) if n % 3 else tuple(range(n))
@@ -509,7 +510,7 @@ def work(task):
     elif part == "transposed":
         tabs = offset_tables()
         for tname, offs in tabs.items():
-            n = max(offs) + 1
+            n = (max(offs) + 1) if offs else 3  # the empty table selects nothing from any source
             for ci, data in enumerate((bytes(range(1, n + 1)), filler(seed, n, b"t"), bytes(255 - i for i in range(n)))):
                 _do(acc, {"kind": "transposed", "engine": ename, "table": tname, "data": data}, (ename, "transposed", tname, ci))
             acc.axis("table", tname)
